@@ -4,6 +4,21 @@ alphabet (LexProgress, LexTiling).  Replay: the real parser under recover + watc
 tree must equal the specification's complete tree (a missing operand, empty name or absent list
 shows up as a mismatch)."""
 
+import json
+
+def corrupt_out(lines):
+    for i, l in enumerate(lines):
+        e = json.loads(l)
+        if e["out"] == "reject" and len(e["toks"]) > 2:
+            e["out"] = "ok"
+            return i, json.dumps(e)
+    raise RuntimeError("no event to corrupt")
+
+def corrupt_big(lines):
+    e = json.loads(lines[3])
+    e["scans"] = 4 * e["ntoks"] + 100
+    return 3, json.dumps(e)
+
 def run(ctx):
     th = ctx.thorough
     r = ctx.tlc("grammar-full", "mc/MC_Grammar.tla", "mc/MC_Grammar_full.cfg", {"K": 4 if th else 3},
@@ -12,8 +27,17 @@ def run(ctx):
     r = ctx.tlc("lexer-scan", "mc/MC_Lexer.tla", "mc/MC_Lexer_scan.cfg", {"K": 5 if th else 4}, min_states=160000,
                 timeout=3400, heap="14g")
     ctx.replay("lexer-scan-parse", "lexparse", r["dump"], min_cases=160000)
+    # trace direction: random / mutated / pathological texts recorded from the real code, validated by TLC
+    tr = ctx.record("parse-random", "parse", ["-n", 40000 if th else 3000, "-maxlen", 120 if th else 60])
+    ctx.validate("parse-random-validate", "trace/Trace_Parse.tla", "trace/Trace_Parse.cfg", tr, "parse", shards=14 if th else 3)
+    ctx.selftest_binding("parse-random", "trace/Trace_Parse.tla", "trace/Trace_Parse.cfg", tr, "parse", corrupt_out)
+    big = ctx.record("parse-big", "big", ["-sizes", "1024,8192,65536"], timeout=1500)
+    ctx.validate("parse-big-validate", "trace/Trace_Big.tla", "trace/Trace_Big.cfg", big, "big")
+    ctx.selftest_binding("parse-big", "trace/Trace_Big.tla", "trace/Trace_Big.cfg", big, "big", corrupt_big)
     return ctx.finish(
         rule="every token sequence of length <= %d over the full token alphabet (all kinds the scanner produces + 4 line-break "
              "variants) and every text of <= %d units over the scanner alphabet (ASCII, multi-byte, U+2028, invalid byte), "
-             "parsed by the real parser under recover and a watchdog; non-trivial = accepted inputs" % ((4, 5) if th else (3, 4)),
+             "parsed by the real parser under recover and a watchdog; plus seeded random / mutated texts validated by Trace_Parse and 28 "
+             "pathological shapes at 1, 8 and 64 KiB validated by Trace_Big (outcome, tiling, scanner steps per token, wall-clock net); "
+             "non-trivial = accepted inputs" % ((4, 5) if th else (3, 4)),
         assumptions=["hang = a single parse exceeding 20 s"])
